@@ -61,6 +61,9 @@ Proof. apply san_link_check. vm_compute. reflexivity. Qed.
 Example san_link_knights : san_link b_knights.
 Proof. apply san_link_check. vm_compute. reflexivity. Qed.
 
+Example san_link_rook_e1 : san_link b_rook_e1.
+Proof. apply san_link_check. vm_compute. reflexivity. Qed.
+
 (** hence, on these boards, every specification spelling of every legal move round-trips *)
 Example roundtrip_all_spellings_ep : forall m s,
   In m (legal_moves (abs_board b_ep)) -> In s (san_spellings (abs_board b_ep) m) ->
